@@ -143,11 +143,21 @@ def run(F, rep):
     rep.rule('C09.P4', 'every clear() of a child container is preceded by removeParent() on each element')
     rep.rule('C09.P5', 'lookups by entity pointer (find*(ptr)) try pointer identity before structural equals(), so that operations on a child affect exactly that child')
     sites = 0
+    ALIAS = {}     # node id of a container operation made through a local reference -> the name of that reference
     for f in sorted(F.funcs.values(), key=lambda f: (f.file, f.line)):
         muts = []
         for n in f.walk():
             if n.get('k') == 'Call' and n.get('mc') and n.get('fn') in ('push_back', 'emplace_back', 'insert', 'erase', 'clear', 'pop_back', 'resize', 'swap', 'operator='):
                 r = receiver(n)
+                if r is not None and r.get('k') == 'Ref' and r.get('dk') == 'local' and 'std::vector<' in (r.get('t') or ''):
+                    # a local REFERENCE to the child container (`auto &allUnits = pFunc()->mUnits;`) is that container
+                    i_ = local_init(f, r)
+                    while i_ is not None and i_.get('k') in ('Cast', 'Paren', 'Temp', 'Bind') and len(i_.get('c', [])) == 1:
+                        i_ = i_['c'][0]
+                    dv_ = next((v_ for v_ in f.walk() if v_.get('k') == 'Var' and v_.get('d') == r.get('d')), None)
+                    if i_ is not None and is_container(i_) and dv_ is not None and (dv_.get('t') or '').rstrip().endswith('&'):
+                        ALIAS[n['i']] = r.get('n')
+                        r = i_
                 if is_container(r):
                     muts.append((n, r))
         if not muts:
@@ -210,6 +220,7 @@ def run(F, rep):
                 if ini is not None:
                     src = ini
                 key = '%s/%d|%s.erase' % (f.short, len(f.params), r['n'])
+                cont_txts = tuple(t_ for t_ in (render(r), ALIAS.get(n['i'])) if t_)
                 rp = [c for c in parent_calls if c['fn'] == 'removeParent']
                 good = False
                 det = 'no removeParent in the function'
@@ -229,18 +240,18 @@ def run(F, rep):
                     if ri is not None:
                         rtxt = render(ri)
                         # element copied from the same container position / iterator before the erase
-                        if (rtxt.startswith(render(r)) or (a is not None and a.get('k') == 'Ref' and (rtxt == a.get('n') or _deref(rtxt) == a.get('n')))) and f.cfg().node_dominates(ri, n):
+                        if (rtxt.startswith(cont_txts) or (a is not None and a.get('k') == 'Ref' and (rtxt == a.get('n') or _deref(rtxt) == a.get('n')))) and f.cfg().node_dominates(ri, n):
                             good = True
                             det = 'removeParent on the element saved from `%s`' % rtxt
                             break
-                    if root is not None and root.get('k') in ('Call',) and render(root).startswith(render(r)) and f.cfg().node_dominates(c, n):
+                    if root is not None and root.get('k') in ('Call',) and render(root).startswith(cont_txts) and f.cfg().node_dominates(c, n):
                         good = True
                         det = 'removeParent on `%s` before the erase' % render(root)
                         break
                     if root is not None and root.get('k') == 'Ref' and root.get('dk') == 'local':
                         # assigned (not initialised) from *result or from the same container position, before the erase
                         asg = [b for b in f.walk() if b.get('k') == 'Call' and b.get('opc') == '=' and b['c'][0].get('k') == 'Ref' and b['c'][0].get('d') == root['d']]
-                        if any(((a is not None and (render(strip(b['c'][1])) == a.get('n') or _deref(render(strip(b['c'][1]))) == a.get('n'))) or render(strip(b['c'][1])).startswith(render(r))) and f.cfg().node_dominates(b, n) for b in asg):
+                        if any(((a is not None and (render(strip(b['c'][1])) == a.get('n') or _deref(render(strip(b['c'][1]))) == a.get('n'))) or render(strip(b['c'][1])).startswith(cont_txts)) and f.cfg().node_dominates(b, n) for b in asg):
                             good = True
                             det = 'removeParent on the element saved before the erase'
                             break
